@@ -7,7 +7,8 @@
  *        output:  `err ## code=<rc>`                      when regcomp fails
  *                 `ok nsub=<n> <tok> <tok> ...`           otherwise, one token per exec:
  *                     `-`        no match            `+`   match, nothing reported (nmatch 0 / NOSUB)
- *                     `so,eo`    pmatch[0]           `slow` per-exec alarm fired (not compared)
+ *                     `so,eo`    pmatch[0]           `slow` per-exec alarm fired (not compared; after two
+ *                                                          of them the rest of the line is skipped as `slow`)
  *                 a token gets a suffix `!...` when the implementation's own output breaks
  *                 the sub-match clause (pmatchOk), writes outside [0,nmatch) / with NOSUB,
  *                 returns an unknown code or leaks; such a suffix never appears on the
@@ -142,7 +143,7 @@ static void do_x(char **w, int nw)
 	regex_t rx;
 	int rc;
 	char *nmspec[16], *efspec[16];
-	int nnm, nef, a, b;
+	int nnm, nef, a, b, nslow;
 	long efv[16];
 	char *p;
 
@@ -176,6 +177,7 @@ static void do_x(char **w, int nw)
 		return;
 	}
 	printf("ok nsub=%d", rx.re_nsub);
+	nslow = 0;
 	for (i = 5; i < nw; i++) {
 		uint8_t *sb = NULL;
 		long slen = hc_unhex(w[i], &sb);
@@ -190,8 +192,14 @@ static void do_x(char **w, int nw)
 			if (!strcmp(nmspec[b], "n")) nm = rx.re_nsub + 1;
 			else if (!strcmp(nmspec[b], "m")) nm = rx.re_nsub + 2;
 			else parse_int(nmspec[b], &nm);
+			/* a pattern that timed out twice on this line is not run again on it */
+			if (nslow >= 2) {
+				printf(" slow");
+				continue;
+			}
 			if (run_exec(&rx, subj, nm, (int)efv[a], &pm, &erc) < 0) {
 				printf(" slow");
+				nslow++;
 				free(pm);
 				continue;
 			}
